@@ -93,7 +93,13 @@ func c16(r *core.Run) {
 	}
 	sortFields(fields)
 	r.Analysed["shared_fields_with_runtime_access"] = len(fields)
-	lazyDefault := map[string]bool{"resetResources": true, "resetAccess": true}
+	// the ownership lists by role: the fields the exported setter stores its arguments into
+	lazyDefault := map[string]bool{}
+	for i := 0; i < 2; i++ {
+		if f, ok := setterField(p, "", a.S, "SetOwnedResources", i); ok {
+			lazyDefault[f.Name] = true
+		}
+	}
 	for _, f := range fields {
 		fa := byField[f]
 		if len(fa.writes) == 0 {
@@ -377,4 +383,37 @@ func sortFields(fs []core.Field) {
 			}
 		}
 	}
+}
+
+// loopCaptureRule: no closure created in a loop and handed on captures a
+// variable the loop re-assigns (shared by C02, C15, C16 under their own rule ids).
+func loopCaptureRule(r *core.Run, rule, badText string) {
+	p := r.P
+	nLoopCl := 0
+	for _, rel := range core.LibPkgs {
+		for _, fn := range p.FuncsOfPkg(rel) {
+			for _, b := range fn.Blocks {
+				for _, in := range b.Instrs {
+					if mc, ok := in.(*ssa.MakeClosure); ok && core.Reaches(mc, mc) {
+						nLoopCl++
+					}
+				}
+			}
+			for _, lc := range sharedLoopCaptures(fn) {
+				escapes := false
+				if lc.mc.Referrers() != nil {
+					for _, rf := range *lc.mc.Referrers() {
+						switch rf.(type) {
+						case *ssa.Call, *ssa.Go, *ssa.Defer, *ssa.Store, *ssa.MapUpdate:
+							escapes = true
+						}
+					}
+				}
+				if escapes {
+					r.Bad(rule, core.FuncName(fn), "loop-closure-captures-reassigned-variable:"+lc.cell.Comment, p.InstrPos(lc.mc), "a closure created in a loop and handed on captures '"+lc.cell.Comment+"', which the loop re-assigns: "+badText)
+				}
+			}
+		}
+	}
+	r.OKTrivial(rule, "library", "closures-in-loops-scanned", "-", fmt.Sprintf("%d closures created in loops, none shares a re-assigned variable", nLoopCl))
 }
